@@ -230,6 +230,8 @@ class FakeNet:
                     self.fired.append((call, idx, typ, kind))
                     if sock is not None:
                         sock.faulted = True
+                        sock.fault_kind = kind
+                        sock.fault_call = call
                     return kind
                 return None
         return None
@@ -318,6 +320,8 @@ class FakeSocket:
         self.connected = False
         self.peer_closed = False
         self.faulted = False        # a fault was injected on this socket
+        self.fault_kind = None
+        self.fault_call = None
         self.wrapped = False        # handed to a TLS context
         self.timeout = "unset"
         self.opts = []
@@ -335,7 +339,7 @@ class FakeSocket:
 
     # -- helpers
     def _use(self, typ, detail=None):
-        self.history.append((typ, detail, self.timeout))
+        self.history.append((typ, detail, self.timeout, self.via_wrapper, self.net.ctx.call))
         if self.closed:
             self.net.alarm("USE_AFTER_CLOSE", "%s on closed socket %d" % (typ, self.sid))
         if self.wrapped and not self.via_wrapper and typ in (T_CONNECT, T_SENDALL, T_RECV, T_SETTIMEOUT):
@@ -510,7 +514,7 @@ class FakeSocket:
 
     def close(self):
         k = self.net._step(T_CLOSE, self)
-        self.history.append((T_CLOSE, None, self.timeout))
+        self.history.append((T_CLOSE, None, self.timeout, self.via_wrapper, self.net.ctx.call))
         self.close_count += 1
         self.closed = True
         if k:
